@@ -375,6 +375,34 @@ def ntpRequest (w : World) (side : Side) (u : Nat) : World :=
   | some (.ntpClient _ (some srv)) => w.send side u srv 123 2 (.ntp none)
   | _ => w
 
+/-- one service's `apply_timestep` inside `Node.apply_timestep`: its lifecycle tick, then — `NTPClient.apply_timestep` — a
+time request if the object is an NTP client that is RUNNING now -/
+def tickSvc (w : World) (side : Side) (u : Nat) : World :=
+  let nn := w.get side
+  let w1 := w.set side { nn with n := (nn.n.step (.svcApi u .tick)).1 }
+  match dget u (w1.get side).data with
+  | some (.ntpClient _ _) => if (w1.get side).n.isRunning u then w1.ntpRequest side u else w1
+  | _ => w1
+
+def tickApp (w : World) (side : Side) (u : Nat) : World :=
+  let nn := w.get side
+  w.set side { nn with n := (nn.n.step (.appApi u .tick)).1 }
+
+/-- `Node.apply_timestep` of node `side` with the network traffic it causes, in the order the code makes it: while the node
+is ON (and no power countdown is pending — the two-node rig uses instant power transitions) every service in
+`node.services` order, then every application, gets its tick; an NTP client sends its request in the middle of that loop.
+With a power countdown pending the lifecycle tick is `Registries.Node.step .tick` (no NTP traffic is modelled there).
+`none` = `apply_timestep` raises. -/
+def tick (w : World) (side : Side) : Option World :=
+  let nn := w.get side
+  if !nn.n.tickAllOk then none
+  else if nn.n.upCd > 0 ∨ nn.n.downCd > 0 ∨ nn.n.power = .booting ∨ nn.n.power = .shuttingDown then
+    some (w.set side { nn with n := (nn.n.step .tick).1 })
+  else if nn.n.power = .on then
+    let w1 := nn.n.services.foldl (fun w u => w.tickSvc side u) w
+    some (nn.n.applications.foldl (fun w u => w.tickApp side u) w1)
+  else some w
+
 /-- an injected frame as if from the peer: through `HostNode.receive_frame` (`viaHost`) or straight into
 `SessionManager.receive_frame`; replies travel the transport -/
 def inject (w : World) (side : Side) (viaHost : Bool) (h : Hdr) (p : Payload) : World × Bool :=
